@@ -197,9 +197,9 @@ HReadK(i, k) ==
 
 HRead(i) == \E k \in 0..Len(unread[i]) : (Rendezvous => k = Len(unread[i])) /\ HReadK(i, k)
 
+(* (the Write may complete although the dialer is closing: both outcomes are possible then) *)
 HReply(i) ==
     /\ hpc[i] = "reply"
-    /\ ~dclosed[i] \/ ~Rendezvous
     /\ replied' = [replied EXCEPT ![i] = TRUE]
     /\ hpc' = [hpc EXCEPT ![i] = "cas"]
     /\ UNCHANGED <<cfgv, first, unread, wn, dclosed, backlog, apc, acur, lopen, tunnelS, wrappedS, cli, agr, obs>>
